@@ -23,6 +23,29 @@ def mkpe(nsec=1, ptr=0x200, size=0x200, total=0x400, optsize=0xE0, lfanew=0x40, 
     return hdr + b"\xcc" * max(0, total - len(hdr))
 
 
+def valid_pe_variant(kind):
+    """Structurally valid images whose LAST section-table entry is not the one that reaches furthest into the file:
+    'bss' = two sections + a trailing uninitialised-data section without raw data; 'reversed' = raw data stored in the
+    opposite order of the section table."""
+    hdr_len = 0x200
+    dos = bytearray(b"MZ" + b"\0" * 62)
+    struct.pack_into("<I", dos, 0x3C, 0x40)
+    if kind == "bss":
+        layout = [(hdr_len, 0x200), (hdr_len + 0x200, 0x200), (0, 0)]
+    else:
+        layout = [(hdr_len + 0x400, 0x200), (hdr_len + 0x200, 0x200), (hdr_len, 0x200)]
+    coff = struct.pack("<HHIIIHH", 0x14C, len(layout), 0, 0, 0, 0xE0, 0x102)
+    opt = bytearray(0xE0)
+    struct.pack_into("<H", opt, 0, 0x10B)
+    struct.pack_into("<I", opt, 92, 16)
+    secs = b""
+    for i, (ptr, size) in enumerate(layout):
+        secs += struct.pack("<8sIIIIIIHHI", b".s%d" % i, 0x200, 0x1000 * (i + 1), size, ptr, 0, 0, 0, 0, 0x60000020 if size else 0xC0000080)
+    hdr = bytes(dos) + b"PE\0\0" + coff + bytes(opt) + secs
+    end = max(p + s for p, s in layout)
+    return hdr + b"\0" * (hdr_len - len(hdr)) + b"\xcc" * (end - hdr_len)
+
+
 def valid_pe(nsec=1, payload=b"\xcc"):
     """A structurally valid image: sections laid out back to back after the headers, file ends with the last section."""
     hdr_len = 0x200
